@@ -100,6 +100,12 @@ def multi_programs(seed, n):
                "        2 : Swap,\n    },\n    string Note,\n    match Note as Extra {\n        \"NO\" : Ping,\n        \"CX\" : Pong,\n    },\n}\n\n"
                "packet Forward {\n    u32 a,\n}\n\npacket Spot {\n    u16 b,\n}\n\npacket Swap {\n    u8 c,\n    Order Inner,\n}\n\npacket Ping {\n    u8 p,\n}\n\npacket Pong {\n    u64 q,\n}\n".replace("    Order Inner,\n", ""))
     out.append("options {\n    FixedStringPadFromLeft = true;\n}\n\nroot packet R {\n    zchar[4] a,\n    @leftPad('\\x00')\n    char[3] b,\n    char[5] c,\n    u8 k,\n    match k as m {\n        1 : A,\n        2 : B,\n    },\n    u16 k2,\n    match k2 as m2 {\n        7 : B,\n        8 : C,\n    },\n}\n\npacket A {\n    zchar[2] z,\n    B b,\n}\n\npacket B {\n    C c,\n}\n\npacket C {\n    repeat zchar[3] zs,\n}\n")
+    # keys at the top of their types: every target has its own spelling for them, derived from the same parsed pairs
+    out.append(BIG_KEYS)
+    # a length field aimed at a member that is no packet (the visitor accepts any member): what a generator does about the relation
+    # it cannot serve, it must do in its own output, not in the model the next generator reads
+    for decl in ("string Text", "char[8] Text", "u32 Text", "repeat u16 Text", "Text {\n        u8 a,\n    }"):
+        out.append("root packet Envelope {\n    u16 MsgType,\n    u16 TextLen @lengthOf(Text),\n    %s,\n    u32 Seq,\n}\n" % decl)
     return out
 
 
@@ -135,6 +141,39 @@ packet logon {
 packet Logon {
     u64 d,
     string t,
+}
+"""
+
+BIG_KEYS = """options {
+    JavaPackage = "com.example.big";
+    GoPackage = "big";
+    GoModule = "example.com/big";
+}
+
+packet A {
+    u8 x,
+}
+
+packet B {
+    u16 y,
+}
+
+root packet Big {
+    u32 Kind,
+    match Kind as Body {
+        3000000000 : A,
+        [4294967295, 2147483648, 7] : B,
+    },
+    u64 Wide,
+    match Wide as Payload {
+        18446744073709551615 : A,
+        [9223372036854775808, 4294967296] : B,
+    },
+    i64 Signed,
+    match Signed as Tail {
+        9223372036854775807 : A,
+        2147483648 : B,
+    },
 }
 """
 
@@ -415,6 +454,8 @@ def run_c16(ctx):
         # programs without a packet (an options / MetaData dictionary): the targets that accept them still have a file set
         # (Rust: an empty lib.rs), and empty files are files
         progs += ["options {\n    LittleEndian = true;\n}\n", "MetaData Types {\n    u32 Seq `s`,\n    char[4] Ccy `c`,\n}\n"]
+        # keys at the top of their types: each target spells them its own way, from the same parsed pairs
+        progs.append(BIG_KEYS)
         gens = harness.run_ops([{"op": "gen", "text": t, "order": ALL, "fresh": False} for t in progs])
         for t, g in zip(progs, gens):
             if "runs" not in g:
@@ -429,8 +470,13 @@ def run_c16(ctx):
                 fh.write(t)
             for trial in range(3 if ctx.tier == "quick" else 8):
                 sub = [x for x in usable if rng.random() < 0.5] or [rng.choice(usable)]
+                if trial == 0:
+                    sub = list(usable)        # every program once with every target at once
                 # expected: generators run over one model in CLI order restricted to the subset
-                exp = harness.run_ops([{"op": "gen", "text": t, "order": [x for x in ALL if x in sub], "fresh": False}])[0]
+                # expected: what each requested generator produces ON ITS OWN from a freshly parsed model (the command runs them over
+                # one model; that this makes no difference is C14 — here it is part of "exactly the generators' file set")
+                exps = harness.run_ops([{"op": "gen", "text": t, "order": [x], "fresh": True} for x in ALL if x in sub])
+                exp = {"runs": [r for e in exps for r in e.get("runs", [])]}
                 want = {}
                 for r in exp.get("runs", []):
                     for name, body in (r.get("files") or {}).items():
